@@ -12,9 +12,30 @@ CHECKS = {
    text='Static rule discharge: for every FSM state and every entry point (operator command, each timer callback, Twisted connection callbacks, every input class of parse_buffer) all paths of the handler code are extracted and each resulting cell (messages with code/subcode, close, next state) is compared with the RFC profile. Decides the per-event reaction for all (state,event) pairs, hence for every history in the single-connection regime, because handlers read only the state and a closed set of atoms. Does not decide timing or reactor interleavings.',
    design='DESIGN.md section 3 C01, Appendix A/B',
    note='Trusted: CPython ast; the Twisted model of sa/session.py (buildProtocol, callFromThread, loseConnection ends in connectionLost); BGPTimer primitives (shape checked by C03 R03.g); the transcribed RFC profile in sa/profile.py. Decoder loops abstracted to 0/1 iteration.'),
+ 'C02': dict(
+   technique='restart-token must-analysis on the extracted reaction table (abstract interpretation of fsm.py/factory.py/protocol.py) + who-may-write scan of the operator flag',
+   text='Static rule discharge of the structural necessary condition of self-healing: on every non-operator path of every (event,state) cell that ends in Idle, or that consumes a pending restart, a reconnection is pending afterwards (idle-hold timer armed, connect started, or close requested whose connectionLost re-arms it); the restart chain is guarded by nothing but the operator flag, which only manual start/stop write. By induction over events this gives "never stuck" for every history; the numeric time bound and "stays up" are not decided.',
+   design='DESIGN.md section 3 C02',
+   note='Same trusted base as C01. Active is shown transient on every run (R02.f); if that stops holding its rows lose their exemption.'),
+ 'C03': dict(
+   technique='timer-arming rules on the extracted reaction table with interval partition of the hold time (H = 0 / H > 0), symbolic check of the negotiated values (min, /k), AST shape rule for BGPTimer',
+   text='Static rule discharge: keepalive period = negotiated hold / k (k >= 3) and hold = min(configured, proposed) on every accepting path; keepalive expiry sends KEEPALIVE and re-arms iff H > 0; KEEPALIVE/UPDATE restart the hold timer; no timer is ever armed with H = 0; hold expiry sends NOTIFICATION (4,0) and closes; OPEN arms the 240 s timer; BGPTimer.reset/cancel have the semantics the rest relies on. Emission times, "at that moment" and same-instant orderings are not decided.',
+   design='DESIGN.md section 3 C03',
+   note='Same trusted base as C01; reactor.callLater / DelayedCall semantics as documented by Twisted.'),
+ 'C12': dict(
+   technique='connection-resource typestate on the extracted reaction table (incl. a second-connection regime), AST rule for connector retention, who-may-call rule for transport.write',
+   text='Static rule discharge of the mechanism the property relies on: the connector is retained, a reconnect from a non-Idle state aborts the pending attempt and closes the tracked connection first, a new protocol instance replaces the tracked one only after the old one was closed, and every write goes to the tracked transport. Today the first three fail (9 known findings); the check guards the rest and reports any new instance.',
+   design='DESIGN.md section 3 C12',
+   note='Same trusted base as C01. Schedule clauses are not decided.'),
+ 'C13': dict(
+   technique='operator-gate rules on the extracted reaction table: stop row per state with per-timer final state, Idle-exit gate (dominance by the allow_automatic_start atom on every path), manual-start row, REST call-site scan',
+   text='Static rule discharge: manual stop in every state sends Cease iff Established, leaves every BGPTimer off, closes, forbids automatic start and ends in Idle; from Idle no path leaves, connects or emits a message except manual start or under the operator flag (with R02.d this gives, by induction, silence after stop for every continuation); manual start connects at once from Idle and is a no-op elsewhere. One known finding (late connect after stop).',
+   design='DESIGN.md section 3 C13',
+   note='Same trusted base as C01; REST thread-safety not decided.'),
 }
 
 NOT_APPLICABLE = {}
+PENDING = 'check not built yet in this revision of /verif (design in DESIGN.md section 3); listed here so the manifest stays truthful'
 
 def main():
     checks = []
@@ -45,7 +66,9 @@ def main():
                      'kind_free_text': 'pure-stdlib static analyser for yabgp: resolved program model, forking abstract interpreter with intervals, reaction-table extractor, per-property rule modules (sa/rules), oracle tables (sa/profile.py ...)'}],
         'checks': checks,
         'notes': 'source_commits lists the unguarded fix: commits in /repo (genuine defects, see known_findings.json); there are no instrumentation hooks. Thorough tier = quick rules + checker self-test (selftest/run.py: mutants must fire, refactor twins stay silent).',
-        'not_applicable': [{'property_id': k, 'reason': v} for k, v in sorted(NOT_APPLICABLE.items())],
+        'not_applicable': [{'property_id': k, 'reason': v} for k, v in sorted(NOT_APPLICABLE.items())] +
+                          [{'property_id': 'C%02d' % i, 'reason': PENDING} for i in range(1, 21)
+                           if 'C%02d' % i not in CHECKS and 'C%02d' % i not in NOT_APPLICABLE],
     }
     with open(os.path.join(HERE, 'MANIFEST.json'), 'w') as f:
         json.dump(m, f, indent=1)
